@@ -19,6 +19,7 @@ LEAN = os.path.join(VERIF, "lean")
 HARNESS = os.path.join(VERIF, "harness")
 NCPU = os.cpu_count() or 4
 GUARD = "SOXR_VERIF"
+REPO_TAG = hashlib.sha256(os.path.realpath(REPO).encode()).hexdigest()[:6]
 
 # The configuration the repository's own build uses here (soxr-config.h as cmake writes it for this image).
 CONFIG = dict(AVCODEC_FOUND=0, AVUTIL_FOUND=0, WITH_PFFFT=1, HAVE_FENV_H=1, HAVE_STDBOOL_H=1, HAVE_STDINT_H=1,
@@ -100,13 +101,16 @@ def build_lib(variant="rel", hooks=True, extra=""):
     Same file set and per-file flags as src/CMakeLists.txt for this image's configuration."""
     flags = VARIANTS[variant] + (" -D" + GUARD if hooks else "") + (" " + extra if extra else "")
     key = file_hash(src_files(), flags)
-    name = "%s%s-%s" % (variant, "" if hooks else "-nohook", key)
+    # builds of different source trees (VERIF_REPO overrides used for mutation runs) must not evict each other
+    xt = ("-x" + hashlib.sha256(extra.encode()).hexdigest()[:4]) if extra else ""
+    prefix = "%s%s%s-%s-" % (variant, "" if hooks else "-nohook", xt, REPO_TAG)
+    name = prefix + key
     out = os.path.join(BUILD, "lib", name)
-    with Lock("lib-" + variant):
+    with Lock("lib-" + variant + xt + "-" + REPO_TAG):
         if os.path.exists(os.path.join(out, "libsoxr.a")):
             return out
-        # drop stale builds of this variant
-        for d in glob.glob(os.path.join(BUILD, "lib", "%s%s-*" % (variant, "" if hooks else "-nohook"))):
+        # drop stale builds of this variant of this source tree
+        for d in glob.glob(os.path.join(BUILD, "lib", prefix + "*")):
             shutil.rmtree(d, ignore_errors=True)
         os.makedirs(out, exist_ok=True)
         write_config(out)
@@ -143,11 +147,11 @@ def build_harness(name, sources, variant="rel", extra="", link_lib=True, cxx=Fal
     key = file_hash(deps, flags + (lib or ""))
     outdir = os.path.join(BUILD, "harness")
     os.makedirs(outdir, exist_ok=True)
-    exe = os.path.join(outdir, "%s-%s-%s" % (name, variant, key))
-    with Lock("harness-" + name + "-" + variant):
+    exe = os.path.join(outdir, "%s-%s-%s-%s" % (name, variant, REPO_TAG, key))
+    with Lock("harness-" + name + "-" + variant + "-" + REPO_TAG):
         if os.path.exists(exe):
             return exe
-        for old in glob.glob(os.path.join(outdir, "%s-%s-*" % (name, variant))):
+        for old in glob.glob(os.path.join(outdir, "%s-%s-%s-*" % (name, variant, REPO_TAG))):
             try:
                 os.remove(old)
             except OSError:
